@@ -54,6 +54,10 @@ pub struct RunOut {
     pub state_hashes: Vec<u64>,
     pub trace: Vec<String>,
     pub harness_error: Option<String>,
+    /// replacement config for the replay file (e.g. the single fault point that failed)
+    pub cfg_override: Option<serde_json::Value>,
+    /// evaluations this run stands for (0 = one)
+    pub evals: u64,
 }
 
 impl RunOut {
